@@ -97,6 +97,9 @@ def _add_markdown_hard_break_handling(base_wrapper: LineWrapper) -> LineWrapper:
             is_last = i == len(segments) - 1
 
             cur_initial_indent = initial_indent if is_first else subsequent_indent
+            if not is_first:
+                # The segment starts a line: its first word may need escaping.
+                segment = markdown_escape_first_word(segment, paragraph_start=False)
             wrapped_segment = _protect_trailing_backslashes(
                 base_wrapper(segment, cur_initial_indent, subsequent_indent), is_last
             )
